@@ -75,6 +75,12 @@ def _select(func, selector):
                     raise Untranslatable(f"{func.name}: slice bound of {arg} missing")
                 return e
         raise Untranslatable(f"{func.name}: `{arg} = np.s_[lo:hi]` not found")
+    if kind == "assign-attr":
+        for node in ast.walk(func):
+            if (isinstance(node, ast.Assign) and len(node.targets) == 1 and isinstance(node.targets[0], ast.Attribute)
+                    and node.targets[0].attr == arg):
+                return node.value
+        raise Untranslatable(f"{func.name}: assignment to .{arg} not found")
     if kind == "comp-elt":
         for node in ast.walk(func):
             if (isinstance(node, ast.Assign) and len(node.targets) == 1 and isinstance(node.targets[0], ast.Name)
@@ -126,7 +132,10 @@ class Tr:
     def tr(self, n):
         """arithmetic expression -> Lean term of type self.ty"""
         if isinstance(n, ast.Constant) and isinstance(n.value, int) and not isinstance(n.value, bool):
-            return f"({n.value} : {self.ty})" if n.value >= 0 else f"(-{-n.value} : {self.ty})"
+            lty = "Nat" if self.ty == "U64" else self.ty
+            return f"({n.value} : {lty})" if n.value >= 0 else f"(-{-n.value} : {lty})"
+        if self.ty == "U64" and isinstance(n, ast.Name) and n.id == "_MAX_UINT64":
+            return "Routing.MAX64"
         if isinstance(n, ast.Name):
             if n.id in self.inline and self.depth < 8:
                 self.depth += 1
@@ -145,6 +154,20 @@ class Tr:
             return self.ident(f"{bname}_{n.slice.value}")
         if isinstance(n, ast.UnaryOp) and isinstance(n.op, ast.USub) and self.ty == "Int":
             return f"(-{self.tr(n.operand)})"
+        if isinstance(n, ast.UnaryOp) and isinstance(n.op, ast.Invert) and self.ty == "U64":
+            return f"(Routing.not64 {self.tr(n.operand)})"
+        if self.ty == "U64" and isinstance(n, ast.BinOp) and isinstance(n.op, (ast.LShift, ast.RShift)):
+            fn = "Routing.shl64" if isinstance(n.op, ast.LShift) else "Routing.shr64"
+            return f"({fn} {self.tr(n.left)} {self.tr(n.right)})"
+        if self.ty == "U64" and isinstance(n, ast.BinOp) and isinstance(n.op, ast.BitAnd):
+            return f"({self.tr(n.left)} &&& {self.tr(n.right)})"
+        if self.ty == "U64" and isinstance(n, ast.Name) and n.id == "_MAX_UINT64":
+            return "Routing.MAX64"
+        if (self.ty == "U64" and isinstance(n, ast.Call) and isinstance(n.func, ast.Attribute)
+                and isinstance(n.func.value, ast.Name) and n.func.value.id == "self"
+                and all(isinstance(a, ast.Name) for a in n.args) and not n.keywords):
+            # a method of the same object applied to plain names: an opaque value, e.g. self._hash(cmc) -> hash_cmc
+            return self.ident(n.func.attr.lstrip("_") + "_" + "_".join(a.id for a in n.args))
         if isinstance(n, ast.BinOp):
             a, b = self.tr(n.left), self.tr(n.right)
             ops = {ast.Add: "+", ast.Sub: "-", ast.Mult: "*", ast.FloorDiv: "/", ast.Mod: "%"}
@@ -215,6 +238,16 @@ SPECS = [
          select="comp-elt:chunk_fetch_factor", ty="Int", result="val", noinline=True),
     dict(name="statsChunksPerAxis", file="scripts/scale_stats.py", func="show_scales_info",
          select="comp-elt:size_in_chunks", ty="Int", result="val", noinline=True),
+    dict(name="minishardMask", file="sharded_base.py", func="ShardSpec.minishard_mask",
+         select="assign-attr:_minishard_mask", ty="U64", result="val"),
+    dict(name="preshiftMask", file="sharded_base.py", func="ShardSpec.preshift_mask",
+         select="assign-attr:_preshift_mask", ty="U64", result="val"),
+    dict(name="shardMask", file="sharded_base.py", func="ShardSpec.shard_mask",
+         select="assign-attr:_shard_mask", ty="U64", result="val"),
+    dict(name="shardKey", file="sharded_base.py", func="CMCReadWrite.get_shard_key", select="return",
+         ty="U64", result="val"),
+    dict(name="minishardKey", file="sharded_base.py", func="CMCReadWrite.get_minishard_key", select="return",
+         ty="U64", result="val"),
     dict(name="nextCmc", file="sharded_file_accessor.py", func="MiniShard.next_cmc", select="return",
          ty="Nat", result="val", keep=["preshift_mask"]),
 ]
@@ -241,6 +274,15 @@ FALLBACK = {
     "pyrHalfChunk": ("(osz f : Int)", "Int", "(osz / f)"),
     "pyrFetchFactor": ("(nsz hc : Int)", "Int", "(nsz / hc)"),
     "statsChunksPerAxis": ("(s cs : Int)", "Int", "(((s - (1 : Int)) / cs) + (1 : Int))"),
+    "minishardMask": ("(minishard_bits : Nat)", "Nat",
+                      "(Routing.not64 (Routing.shl64 (Routing.shr64 Routing.MAX64 minishard_bits) minishard_bits))"),
+    "preshiftMask": ("(preshift_bits : Nat)", "Nat",
+                     "(Routing.not64 (Routing.shl64 (Routing.shr64 Routing.MAX64 preshift_bits) preshift_bits))"),
+    "shardMask": ("(minishard_bits shard_bits minishard_mask : Nat)", "Nat",
+                  "((Routing.not64 (Routing.shl64 (Routing.shr64 Routing.MAX64 (minishard_bits + shard_bits)) "
+                  "(minishard_bits + shard_bits))) &&& (Routing.not64 minishard_mask))"),
+    "shardKey": ("(shard_mask hash_cmc minishard_bits : Nat)", "Nat", "(Routing.shr64 (shard_mask &&& hash_cmc) minishard_bits)"),
+    "minishardKey": ("(minishard_mask hash_cmc : Nat)", "Nat", "(minishard_mask &&& hash_cmc)"),
     "nextCmc": ("(appended preshift_bits shard_bits minishard_bits masked_bits preshift_mask : Nat)", "Nat",
                 "((((appended >>> preshift_bits) <<< ((preshift_bits + shard_bits) + minishard_bits)) + masked_bits) + "
                 "(appended &&& preshift_mask))"),
@@ -269,21 +311,22 @@ def translate_all():
             continue
         STATUS[sp["name"]] = "translated from the current source"
         params = " ".join(t.params)
-        sig = f"({params} : {sp['ty']})" if t.params else ""
+        lty = "Nat" if sp["ty"] == "U64" else sp["ty"]
+        sig = f"({params} : {lty})" if t.params else ""
         src = ast.unparse(expr).replace("\n", " ")
         if sp["result"] == "Bool":
             out.append(f"/-- `{sp['func']}` ({sp['file']}): `{src[:300]}` -/\n"
                        f"def {sp['name']} {sig} : Prop :=\n  {body}")
         else:
             out.append(f"/-- `{sp['func']}` ({sp['file']}): `{src[:300]}` -/\n"
-                       f"def {sp['name']} {sig} : {sp['ty']} :=\n  {body}")
+                       f"def {sp['name']} {sig} : {lty} :=\n  {body}")
     return out
 
 
 def render():
     head = ("/- GENERATED by harness/ngv/translate.py from /repo's current source on every run.\n"
             "   Do not edit: the file is rewritten before each `lake build`. -/\n"
-            "namespace NgVerif.Generated.Src\n\n")
+            "import NgVerif.Model.Routing\nnamespace NgVerif.Generated.Src\nopen NgVerif\n\n")
     return head + "\n\n".join(translate_all()) + "\n\nend NgVerif.Generated.Src\n"
 
 
